@@ -946,3 +946,40 @@ func canReach(a, b ssa.Instruction) bool {
 	}
 	return walk(ba)
 }
+
+// everyPathFromCrosses: every path from block `from` to block `target` traverses at least
+// one conditional edge satisfying edgeSat (or target is unreachable from `from`).
+func everyPathFromCrosses(from, target *ssa.BasicBlock, edgeSat func(d *ssa.BasicBlock, k int) bool) bool {
+	seen := map[*ssa.BasicBlock]bool{}
+	var reach func(b *ssa.BasicBlock) bool
+	reach = func(b *ssa.BasicBlock) bool {
+		if b == target {
+			return true
+		}
+		if seen[b] {
+			return false
+		}
+		seen[b] = true
+		for k, s := range b.Succs {
+			if len(b.Succs) == 2 && b.Succs[0] != b.Succs[1] && edgeSat(b, k) {
+				continue
+			}
+			if reach(s) {
+				return true
+			}
+		}
+		return false
+	}
+	return !reach(from)
+}
+
+func edgeEstablishes(pred func(Fact) bool) func(d *ssa.BasicBlock, k int) bool {
+	return func(d *ssa.BasicBlock, k int) bool {
+		for _, f := range edgeFacts(d, k) {
+			if pred(f) {
+				return true
+			}
+		}
+		return false
+	}
+}
